@@ -176,12 +176,13 @@ def label_str(n):
 # attributed graphs (targets + aliases) and selection requests
 # ------------------------------------------------------------------------------------------------
 
-def gen_attr_graph(rng, n=None, alias_p=0.2, plat_p=0.25):
+def gen_attr_graph(rng, n=None, alias_p=0.2, plat_p=0.25, pkgs=None):
     """nodes in topological order; aliases have exactly one dependency (their `actual`, possibly an alias or a test)."""
     n = rng.randint(2, 14) if n is None else n
-    labels = [(p, nm) for p in PKGS for nm in NAMES]
+    pkgs = PKGS if pkgs is None else pkgs
+    labels = [(p, nm) for p in pkgs for nm in NAMES]
     rng.shuffle(labels)
-    labels += [(PKGS[i % len(PKGS)], f"n{i}") for i in range(max(0, n - len(labels)))]     # large graphs
+    labels += [(pkgs[i % len(pkgs)], f"n{i}") for i in range(max(0, n - len(labels)))]     # large graphs
     nodes, es = [], []
     density = rng.choice([0.15, 0.3, 0.6]) if n <= 20 else rng.choice([2.0, 4.0]) / n
     for i in range(n):
@@ -203,15 +204,29 @@ def gen_attr_graph(rng, n=None, alias_p=0.2, plat_p=0.25):
     return nodes, es
 
 
+def nested_packages(nodes):
+    """packages of the graph that have a sub-package in the graph ("" counts when there is any other package)"""
+    have = sorted({n["pkg"] for n in nodes})
+    return [p for p in have if any(q != p and (p == "" or q.startswith(p + "/")) for q in have)]
+
+
 def gen_patterns(rng, nodes):
-    """pattern set + current package: absolute, relative, recursive, :all, shorthand, and none (match all)"""
-    cur = rng.choice(PKGS)
+    """pattern set + current package: absolute, relative (:name, :all, :...), recursive, :all, shorthand, and none (match all).
+    The current package is, half of the time, a package of the graph that has sub-packages: relative patterns must stay in it."""
+    nested = nested_packages(nodes)
+    cur = rng.choice(nested) if nested and rng.random() < 0.5 else rng.choice(PKGS)
+    in_cur = [n for n in nodes if n["pkg"] == cur]
     k = rng.choice([0, 1, 1, 1, 2, 3])
     pats = []
     for _ in range(k):
         nd = rng.choice(nodes)
-        kind = rng.randrange(9)
+        kind = rng.randrange(11)
+        if kind in (4, 5, 9, 10) and in_cur:
+            nd = rng.choice(in_cur)
         pkg = nd["pkg"]
+        if kind >= 9:
+            pats.append(":...")
+            continue
         if kind == 0:
             pats.append("//" + pkg + ":" + nd["name"])
         elif kind == 1:
@@ -232,6 +247,24 @@ def gen_patterns(rng, nodes):
         else:
             pats.append("//" + rng.choice(PKGS) + ":" + rng.choice(NAMES))
     return cur, pats
+
+
+RELATIVE_FAMILIES = [("a", "a/b", "ab"), ("a/b", "a/b/c", "a"), ("ab", "ab/c", "a"), ("", "a", "b"), ("a", "a/b/c", "a/b")]
+
+
+def gen_relative_req(rng, n=None):
+    """targeted family: one relative pattern (`:...`, `:all`, `:name`) given from a current package that has a sub-package and a
+    sibling sharing its string prefix; the pattern must select from the current package only (plus dependencies)."""
+    cur, sub, sib = rng.choice(RELATIVE_FAMILIES)
+    nodes, es = gen_attr_graph(rng, rng.randint(4, 10) if n is None else n, plat_p=0.1, pkgs=[cur, sub, sib])
+    in_cur = [x for x in nodes if x["pkg"] == cur]
+    pat = rng.choice([":...", ":...", ":all", ":" + (rng.choice(in_cur)["name"] if in_cur else rng.choice(NAMES))])
+    req = {"nodes": nodes, "edges": [list(e) for e in es], "cur": cur, "patterns": [pat], "tags": [], "exclude": [],
+           "type": rng.choice(["all", "all", "no_test"]), "platform": PLATFORMS[0], "all_platforms": rng.random() < 0.5}
+    order = list(range(len(nodes)))
+    rng.shuffle(order)
+    req["order"] = order
+    return req
 
 
 def gen_select_req(rng, n=None):
